@@ -10,8 +10,9 @@ FAM_TY = {"none": "int", "seq": "List[int]", "map": "Dict[str, int]", "set": "Se
 HEADER = "from typing import Any, Dict, List, Set\nfrom spec_classes import Attr, spec_class\n"
 
 
-def opts(init=True, repr=True, eq=True, attrs=(), typed=(), skip=(), useskip=False):
-    return {"init": init, "repr": repr, "eq": eq, "attrs": list(attrs), "typed": [{"n": n, "fam": f} for n, f in typed], "skip": list(skip), "useskip": useskip}
+def opts(init=True, repr=True, eq=True, attrs=(), typed=(), skip=(), useskip=False, key=""):
+    return {"init": init, "repr": repr, "eq": eq, "attrs": list(attrs), "typed": [{"n": n, "fam": f} for n, f in typed], "skip": list(skip), "useskip": useskip,
+            "key": key}          # key: the decorator's key= (naming a key does not make the attribute a managed one)
 
 
 def base(annots, body=(), o=None, inh=(), parent_src=""):
@@ -29,6 +30,7 @@ BASES = {
     "attrs_plus_annotations": base([("x", "none")], body=["x"], o=opts(attrs=["w"], skip=[], useskip=True)),
     "collision_fallback": base([("items", "seq"), ("item", "none")]),
     "collision_error": base([("items", "seq"), ("item", "none"), ("items_item", "none")]),
+    "collision_fallback_clash": base([("value", "none"), ("values", "seq"), ("values_items", "seq")]),
     "collision_inherited": base([("item", "none")], inh=[("items", "seq")],
                                 parent_src="@spec_class\nclass Parent:\n    items: List[int]\n"),
     "collision_parent_scalar": base([("items", "seq")], inh=[("item", "none")],
@@ -40,6 +42,11 @@ BASES = {
     "collision_two_collections": base([("children", "seq"), ("childs", "map"), ("xs", "seq")]),
     "collision_inherited_collection": base([("childs", "map")], inh=[("children", "seq")],
                                            parent_src="@spec_class\nclass Parent:\n    children: List[int]\n"),
+    # a key attribute that is NOT among the managed attributes gets no helpers
+    "key_skipped": base([("k", "none"), ("x", "none")], body=["k", "x"], o=opts(skip=["k"], useskip=True, key="k")),
+    "key_not_in_attrs": base([("k", "none"), ("x", "none")], body=["k", "x"], o=opts(attrs=["x"], key="k")),
+    "key_private": base([("_id", "none"), ("x", "none")], body=["_id", "x"], o=opts(key="_id")),
+    "key_managed": base([("k", "none"), ("x", "none")], body=["k", "x"], o=opts(key="k")),
     "inherits": base([("y", "none")], body=["y"], inh=[("x", "none"), ("zs", "seq")],
                      parent_src="@spec_class\nclass Parent:\n    x: int = 0\n    zs: List[int] = []\n"),
     "private_in_attrs": base([("x", "none")], body=["x"], o=opts(attrs=["_secret"])),
@@ -116,6 +123,8 @@ def decorator_args(o, eager):
         args["attrs_typed"] = {t["n"]: {"none": int, "seq": List[int], "map": Dict[str, int], "set": Set[str]}[t["fam"]] for t in o["typed"]}
     if o["useskip"]:
         args["attrs_skip"] = list(o["skip"])
+    if o.get("key"):
+        args["key"] = o["key"]
     if eager:
         args["bootstrap"] = True
     return args
